@@ -41,7 +41,8 @@ META = dict(
               'comparison of indicator inequalities and overlap tests; late-binding '
               'closure lint; CFG raising paths of the constructors'
               '; root analysis of the six probe points of find_bounds through the sea'
-              'rch recurrences',
+              'rch recurrences'
+              '; pair members of the overlap loops; fresh member list of the collection constructors; union of the per-function bounding boxes; voxel grid spanning the bounding box at the requested pitch',
     level_text='Static: K1-K5 are decided exhaustively over every Scatterer subclass '
                'and every pair enumeration in the source.  They are the analytic '
                'inequalities themselves (K2-K4) and necessary conditions of the '
